@@ -298,8 +298,9 @@ class MQTTProtocol(MQTTBaseProtocol):
         else:
             log.debug("<== {packet:7} (id={response.msgId:04x})", packet="PUBACK", response=response)
             request.alarm.cancel()
-            request.deferred.callback(request.msgId)
+            # out of the window before the application is told (it may call back into the API)
             del self.factory.windowPublish[self.addr][response.msgId]
+            request.deferred.callback(request.msgId)
             self._refillPublish(dup=False)
 
     # --------------------------------------------------------------------------
@@ -341,8 +342,9 @@ class MQTTProtocol(MQTTBaseProtocol):
         else: 
             log.debug("<== {packet:7} (id={response.msgId:04x})", packet="PUBCOMP", response=response)
             reply.alarm.cancel()
-            reply.deferred.callback(reply.msgId)
+            # out of the window before the application is told (it may call back into the API)
             del self.factory.windowPubRelease[self.addr][reply.msgId]
+            reply.deferred.callback(reply.msgId)
             self._refillPublish(dup=False)
 
 
